@@ -206,6 +206,15 @@ pub fn c07(tier: &str) -> i32 {
     let mut plans = Vec::new();
     let p = snapshot_profile("snapshot");
     plans.push(plan("reload (memory / compact file / pretty file) as an operation, LEVELS 3", p.clone(), 3, if t { 5 } else { 4 }));
+    {
+        // reading (incl. serialising) at any point before or after a reload must not matter
+        let mut ob = p.clone();
+        ob.prices = vec![10, 11];
+        ob.limit_vols = vec![2];
+        ob.market_vols = vec![1];
+        ob.reload_modes = vec![0];
+        with_observe(&mut plans, "two prices, in-memory reload", &ob, 3, if t { 6 } else { 5 });
+    }
     let mut p10 = p.clone();
     p10.name = "snapshot-L10".into();
     p10.reload_modes = vec![0, 2];
